@@ -373,7 +373,8 @@ pub fn classify(
         if buffered_loss_ok {
             allowed.insert(0);
         }
-        if partial_retire {
+        let dup_ok = cands.iter().any(|m| m.partial_dup().contains(&e.k));
+        if partial_retire || dup_ok {
             // a compaction round has committed the batch of one event type and not yet reclaimed
             // its inputs: after a restart the drained inputs are read again for that type
             let extra: Vec<usize> = allowed.iter().map(|a| a + 1).collect();
@@ -390,7 +391,7 @@ pub fn classify(
             tags.insert(if in_window && cands.iter().all(|m| vis(m, e.k) > 0) { "KF-orphan-dir".to_string() } else { "KF-P1-wal-unlinked".to_string() });
         }
         if got > 1 {
-            tags.insert(if in_window { "KF-window-dup".to_string() } else if partial_retire { "KF-partial-retire-dup".to_string() } else { "KF-stale-wal-dup".to_string() });
+            tags.insert(if in_window { "KF-window-dup".to_string() } else if partial_retire || dup_ok { "KF-partial-retire-dup".to_string() } else { "KF-stale-wal-dup".to_string() });
         }
         *lo.entry(e.typ.clone()).or_insert(0) += allowed.iter().min().copied().unwrap_or(0);
         *hi.entry(e.typ.clone()).or_insert(0) += allowed.iter().max().copied().unwrap_or(0);
@@ -401,7 +402,7 @@ pub fn classify(
             return Err(format!("REPLAY: k={} x{rgot}; model allows {allowed:?}", e.k));
         }
         if rgot > 1 {
-            tags.insert(if in_window { "KF-window-dup".to_string() } else if partial_retire { "KF-partial-retire-dup".to_string() } else { "KF-stale-wal-dup".to_string() });
+            tags.insert(if in_window { "KF-window-dup".to_string() } else if partial_retire || dup_ok { "KF-partial-retire-dup".to_string() } else { "KF-stale-wal-dup".to_string() });
         }
         if rgot == 0 && !is_inflight && !buffered_loss_ok {
             tags.insert(if in_window && cands.iter().all(|m| vis(m, e.k) > 0) { "KF-orphan-dir".to_string() } else { "KF-P1-wal-unlinked".to_string() });
@@ -456,7 +457,8 @@ pub fn classify(
         }
         let spec = acked.iter().filter(|e| e.typ == t).count();
         if got > spec + inflight.map_or(0, |e| (e.typ == t) as usize) {
-            tags.insert(if in_window { "KF-window-dup".to_string() } else if partial_retire { "KF-partial-retire-dup".to_string() } else { "KF-stale-wal-dup".to_string() });
+            let dup_t = events.iter().any(|e| e.typ == t && cands.iter().any(|m| m.partial_dup().contains(&e.k)));
+            tags.insert(if in_window { "KF-window-dup".to_string() } else if partial_retire || dup_t { "KF-partial-retire-dup".to_string() } else { "KF-stale-wal-dup".to_string() });
         }
         let lost_by_buffer = events.iter().filter(|e| e.typ == t && may_be_lost.contains_key(&e.k) && qm.get(&e.k).copied().unwrap_or(0) == 0).count();
         if got + lost_by_buffer < spec {
@@ -924,6 +926,9 @@ pub fn deep_histories() -> Vec<Vec<Tok>> {
         vec![Sa, Kill, Fill, Sa, Kill, Sa],
         vec![Sa, Sa, Kill, Fill, Fill, Kill, Fill],
         vec![Fill, Sa, Kill, Sa, Flush, Sa, Kill, Fill],
+        // segments that share event types only partly (a round retires an input for one type only)
+        vec![Fill, Fill, Sb, Sa, Flush, Compact, Restart, Sa],
+        vec![Sb, Flush, Fill, Fill, Compact, Kill, Sb],
     ]
 }
 
